@@ -241,6 +241,14 @@ def gen_text(rng, w):
         head = t + ((" " + name) if name else "")
         if t == "holder" and depth == 0:
             lines.append("%s<%s>" % (ind, head))
+            if w.components and rng.random() < 0.3:
+                # an %import line inside an open section: from that line
+                # onward, here and after the section
+                n_, _t = rng.choice(w.components)
+                lines.append("%s  %%import %s" % (ind, n_))
+                if n_ not in imported:
+                    imported.append(n_)
+                kinds.append("I")
             res, adm = admitted_now(
                 [c for c in w.model["types"] if c.get("name") == "holder"]
                 [0]["children"])
